@@ -1,5 +1,6 @@
 import FlVerif.Lemmas.FllRepresentable
 import FlVerif.Lemmas.CodeFllImportEngine
+import FlVerif.Lemmas.CodeFllImportTerm
 
 /-! # C14 — FuzzyLite Language export / import round-trips engines
 
@@ -87,6 +88,19 @@ theorem code_fllSnorm (fll : String) :
     Gen.Code.FllImporter_snorm.run fll {} =
       (Py.Fll.lift (normOf Gen.Tables.snormKeys (textTok fll.toList))).map (fun o => { ret := some o }) :=
   code_snorm fll
+
+/-- `FllImporter.rule` = the text-level model `ruleOf` that `rule_block` calls: `extract_value(line, "rule")`, then
+    `Rule.parse` of the model (`importRule`) on the tokens of the value -/
+theorem code_fllRule (fll : String) :
+    Gen.Code.FllImporter_rule.run fll {} = (Py.Fll.ruleOf fll).map (fun r => { ret := some r }) :=
+  code_rule fll
+
+/-- `FllImporter.term` = the text-level model `termOf` that `input_variable` / `output_variable` call:
+    `extract_value(line, "term")`, name and class, `SyntaxError` for fewer than two words, factory construction and
+    `configure` = the model's `importTerm` on the tokens of the value -/
+theorem code_fllTerm (fll : String) :
+    (Gen.Code.FllImporter_term.run fll {} >>= fun r => Py.deref r.ret) = Py.Fll.termOf fll :=
+  code_term fll
 
 /-- `FllImporter.input_variable`: the key dispatch loop is `importVarLine` on the lexed lines, then the name as an
     identifier - same exception class, same variable, for every text -/
